@@ -10,9 +10,10 @@ inputs only through comparisons of span end points:
                    pairwise disjoint, each is one of the input tokens with text = source slice, and no input token is lost
                    without an overlapping survivor.
   C12.add-to       BaseMergedExtractor.add_to / ChineseMergedExtractor.add_to (merge of the sub-extractors' results): starting
-                   from pairwise disjoint accepted spans, a new span that overlaps nothing is appended, one that overlaps
-                   without covering is dropped, one that covers what it overlaps replaces it - and the result is again
-                   pairwise disjoint.
+                   from pairwise disjoint accepted spans the result is again pairwise disjoint; a new span that overlaps
+                   nothing is appended; one that covers everything it overlaps is kept, one lying inside an accepted span is
+                   not; untouched spans stay; nothing disappears without an overlapping survivor (which of two crossing
+                   spans wins is the resolver's choice: the base keeps the accepted one, the Chinese variant the longer).
   C12.model-filter AbstractNumberWithUnitModel.parse: what the model returns for the spans its extractor hands it.
 
 Each algorithm is read from /repo's AST on every run and evaluated by sa/ointerp.py (a whitelisting interpreter; no repository
@@ -147,20 +148,27 @@ def rule_add_to(chk, idx, tier):
                     got = sorted(er_span(o) for o in out)
                     over = [d for d in D if overlap(v, d)]
                     cov = [d for d in over if rel(v, d) == 'covers']
-                    if not over:
-                        want = sorted(list(D) + [v])
-                    elif cov and len(cov) == len(over):
-                        want = sorted([d for d in D if d not in cov] + [v])
-                    elif not cov:
-                        want = sorted(D)
-                    else:
-                        want = None         # covers one, crosses / sits inside another: only disjointness is required
+                    inside = [d for d in over if rel(v, d) in ('inside', 'equal')]
+                    why = None
+                    if not set(got) <= set(list(D) + [v]):
+                        why = 'result %s invents a span' % (got,)
+                    elif len(set(got)) != len(got):
+                        why = 'result %s reports a span twice' % (got,)
+                    elif not over and got != sorted(list(D) + [v]):
+                        why = 'result %s, expected %s: a span that overlaps nothing is appended, nothing else changes' % (
+                            got, sorted(list(D) + [v]))
+                    elif any(d not in got for d in D if not overlap(v, d)):
+                        why = 'result %s loses an accepted span the new one does not touch' % (got,)
+                    elif over and cov and len(cov) == len(over) and v not in got:
+                        why = 'result %s: the new span covers everything it overlaps but is not kept' % (got,)
+                    elif inside and v in got and v not in D:
+                        why = 'result %s: the new span lies inside an accepted one but is kept' % (got,)
+                    elif any(not any(overlap(x, g) for g in got) for x in list(D) + [v]):
+                        why = 'result %s: a span disappears without an overlapping survivor' % (got,)
                     if not disjoint_all(got):
                         st['overlapping'].append((Dord, v, got))
-                    elif want is not None and got != want:
-                        st['bad'].append((Dord, v, 'result %s, expected %s' % (got, want)))
-                    elif want is None and not set(got) <= set(list(D) + [v]):
-                        st['bad'].append((Dord, v, 'result %s invents a span' % (got,)))
+                    elif why:
+                        st['bad'].append((Dord, v, why))
         for key in sorted(classes):
             st = classes[key]
             n, rels = key
@@ -175,8 +183,7 @@ def rule_add_to(chk, idx, tier):
             elif st['bad']:
                 D, v, why = st['bad'][0]
                 chk.bad(rid, k.mod.path, construct, 'wrong survivor in %d of %d configurations' % (len(st['bad']), st['n']),
-                        '%s.add_to: accepted %s + new %s: %s (a span that overlaps nothing must be appended, one that overlaps '
-                        'without covering dropped, one that covers what it overlaps replaces it)' % (k.name, list(D), v, why), fn.lineno)
+                        '%s.add_to: accepted %s + new %s: %s' % (k.name, list(D), v, why), fn.lineno)
             else:
                 chk.ok(rid, k.mod.path, construct, 'disjoint and the expected survivor in all %d configurations' % st['n'], fn.lineno)
         chk.observe('C12.add-to: %s.add_to interpreted on %d configurations (grid %d, up to %d accepted spans, both orders)'
